@@ -480,6 +480,76 @@ fn gen_query(rng: &mut Rng, lang: &Language, tree: &Tree, text: &[u8]) -> Option
         } else {
             g.pat(rng, &node, depth.max(if node.child_count() > 0 { 1 } else { 0 }))?
         };
+        // "cross-capture predicate": two captured children of one real parent (in many grammars the
+        // second one is guaranteed once the first has matched) and predicates that name the captures in
+        // EVERY order of their ids — descending, ascending, repeated, mixed with strings, split over
+        // two predicates
+        let mut forced_preds: Option<String> = None;
+        let two: Vec<&&Node> = named.iter().filter(|n| n.child_count() >= 2 && !n.is_error()).collect();
+        let body = if !two.is_empty() && rng.chance(1, 6) {
+            let p = **rng.pick(&two);
+            let mut cur = p.walk();
+            let kids: Vec<(Node, Option<String>)> = {
+                let mut v = Vec::new();
+                if cur.goto_first_child() {
+                    loop {
+                        let k = cur.node();
+                        if !k.is_error() && !k.is_missing() && !k.is_extra() {
+                            v.push((k, cur.field_name().map(|s| s.to_string())));
+                        }
+                        if !cur.goto_next_sibling() {
+                            break;
+                        }
+                    }
+                }
+                v
+            };
+            if kids.len() >= 2 {
+                let i = rng.below(kids.len() - 1);
+                let j = if rng.chance(3, 4) { kids.len() - 1 } else { rng.range(i + 1, kids.len() - 1) };
+                let one = |k: &(Node, Option<String>), rng: &mut Rng| {
+                    let base = if k.0.is_named() { format!("({})", k.0.kind()) } else { quote(k.0.kind()) };
+                    match &k.1 {
+                        Some(f) if rng.chance(1, 2) => format!("{f}: {base}"),
+                        _ => base,
+                    }
+                };
+                let a = one(&kids[i], rng);
+                let b = one(&kids[j], rng);
+                g.used_caps = vec!["c0".to_string(), "c1".to_string()];
+                let s = if !leaf_texts.is_empty() { rng.pick(&leaf_texts).clone() } else { "zzz".to_string() };
+                let op2 = *rng.pick(&["not-eq?", "not-eq?", "eq?", "any-not-eq?", "any-eq?"]);
+                let op1 = *rng.pick(&["not-eq?", "not-eq?", "eq?", "any-not-eq?", "not-match?"]);
+                let sq = if op1 == "not-match?" { quote("^zzz$") } else { quote(&s) };
+                forced_preds = Some(match rng.below(8) {
+                    0 | 1 => format!(" (#{op2} @c1 @c0)"),
+                    2 => format!(" (#{op2} @c0 @c1)"),
+                    3 => format!(" (#{op2} @r @c0)"),
+                    4 => format!(" (#{op2} @c1 @c1) (#{op1} @c0 {sq})"),
+                    5 => format!(" (#{op1} @c1 {sq}) (#{op1} @c0 {sq})"),
+                    6 => format!(" (#{op1} @c1 {sq}) (#{op2} @c1 @c0)"),
+                    _ => format!(" (#{op2} @r @c1) (#{op1} @c0 {sq})"),
+                });
+                format!("({} {a} @c0 {b} @c1)", p.kind())
+            } else {
+                body
+            }
+        } else {
+            body
+        };
+        // a ROOT-LEVEL alternation `[A B] @r`: every branch is a root, the pattern is rooted; the real
+        // node's pattern in either position (erroneous documents put such nodes directly under ERROR)
+        let body = if rng.chance(1, 8) {
+            let other = **rng.pick(&named);
+            let ob = if other.is_error() { "(ERROR)".to_string() } else if other.is_missing() { "(_)".to_string() } else { format!("({})", other.kind()) };
+            match rng.below(3) {
+                0 => format!("[{body} {ob}]"),
+                1 => format!("[{ob} {body}]"),
+                _ => format!("[{ob} {body} {ob}]"),
+            }
+        } else {
+            body
+        };
         // non-rooted (top-level sibling group) patterns: `((A) @r [.] (B) @c1)` — they start on every
         // node whose PARENT intersects the range; @r is on the first sibling
         let pairs: Vec<&&Node> = named.iter().filter(|n| n.named_child_count() >= 2 && !n.is_error()).collect();
@@ -492,7 +562,14 @@ fn gen_query(rng: &mut Rng, lang: &Language, tree: &Tree, text: &[u8]) -> Option
                 let j = if rng.chance(2, 3) { i + 1 } else { rng.range(i + 1, kids.len() - 1) };
                 g.used_caps.push("c1".to_string());
                 g.used_caps.dedup();
-                format!("({}) @r{} ({}) @c1", kids[i].kind(), if rng.chance(1, 2) { " ." } else { "" }, kids[j].kind())
+                // sometimes with an alternation INSIDE the first sibling (dead-end steps before the second root)
+                let first = if kids[i].named_child_count() > 0 && rng.chance(1, 3) {
+                    let ck = kids[i].named_child(0).map(|c| c.kind().to_string()).unwrap_or_else(|| "_".to_string());
+                    if rng.chance(1, 2) { format!("({} [({ck}) (_)])", kids[i].kind()) } else { format!("({} [(_) ({ck})])", kids[i].kind()) }
+                } else {
+                    format!("({})", kids[i].kind())
+                };
+                format!("{first} @r{} ({}) @c1", if rng.chance(1, 2) { " ." } else { "" }, kids[j].kind())
             } else {
                 format!("{body} @r")
             }
@@ -503,7 +580,11 @@ fn gen_query(rng: &mut Rng, lang: &Language, tree: &Tree, text: &[u8]) -> Option
         let mut preds = String::new();
         let mut caps = g.used_caps.clone();
         caps.push("r".to_string());
-        if rng.chance(3, 5) {
+        if let Some(fp) = &forced_preds {
+            if body.contains("@c0") && body.contains("@c1") {
+                preds.push_str(fp);
+            }
+        } else if rng.chance(3, 5) {
             let np = 1 + rng.below(2);
             for _ in 0..np {
                 let c = rng.pick(&caps).clone();
@@ -517,6 +598,18 @@ fn gen_query(rng: &mut Rng, lang: &Language, tree: &Tree, text: &[u8]) -> Option
                         let c2 = rng.pick(&caps).clone();
                         let op = *rng.pick(&["eq?", "not-eq?", "any-eq?", "any-not-eq?"]);
                         preds.push_str(&format!(" (#{op} @{c} @{c2})"));
+                    }
+                    9 | 10 if caps.len() >= 2 => {
+                        // two DIFFERENT captures of the pattern, in ascending or descending order of
+                        // their ids (= of their first occurrence in the text), `not-` forms twice as often
+                        // (they hold for most real matches, so a lost match is visible)
+                        let i = rng.below(caps.len());
+                        let mut j = rng.below(caps.len() - 1);
+                        if j >= i {
+                            j += 1;
+                        }
+                        let op = *rng.pick(&["eq?", "not-eq?", "not-eq?", "any-eq?", "any-not-eq?", "any-not-eq?"]);
+                        preds.push_str(&format!(" (#{op} @{} @{})", caps[i], caps[j]));
                     }
                     6 | 7 | 8 => {
                         let op = *rng.pick(&["match?", "not-match?", "any-match?", "any-not-match?"]);
@@ -682,6 +775,63 @@ struct Stats {
     checks: usize,
 }
 
+/// Rootedness read off the query text (one pattern per line, wrapped in one pair of parentheses):
+/// a pattern is rooted iff it has exactly ONE top-level node pattern (a node, a literal, `_` or an
+/// alternation); captures, anchors and predicates do not count.
+fn expected_rooted(q: &str) -> Vec<bool> {
+    let mut res = Vec::new();
+    for line in q.lines() {
+        let b = line.trim().as_bytes();
+        if b.is_empty() {
+            continue;
+        }
+        let mut depth = 0i32;
+        let mut count = 0;
+        let mut i = 0;
+        let mut in_str = false;
+        let wrapped = b[0] == b'(' && {
+            // is the first `(` a wrapper (followed by a node / group / alternation start)?
+            let mut j = 1;
+            while j < b.len() && b[j] == b' ' {
+                j += 1;
+            }
+            j < b.len() && (b[j] == b'(' || b[j] == b'[' || b[j] == b'"' || b[j] == b'_')
+        };
+        let base = if wrapped { 1 } else { 0 };
+        while i < b.len() {
+            let c = b[i];
+            if in_str {
+                if c == b'\\' {
+                    i += 1;
+                } else if c == b'"' {
+                    in_str = false;
+                }
+            } else {
+                match c {
+                    b'"' => {
+                        in_str = true;
+                        if depth == base {
+                            count += 1;
+                        }
+                    }
+                    b'(' | b'[' => {
+                        if depth == base && !(c == b'(' && i + 1 < b.len() && b[i + 1] == b'#') {
+                            count += 1;
+                        }
+                        depth += 1;
+                    }
+                    b')' | b']' => depth -= 1,
+                    b'_' if depth == base && (i == 0 || b[i - 1] == b' ' || b[i - 1] == b'(') && (i + 1 >= b.len() || b[i + 1] == b' ' || b[i + 1] == b')') => count += 1,
+                    _ => {}
+                }
+            }
+            i += 1;
+        }
+        res.push(count == 1);
+    }
+    res
+}
+
 fn emit_case(out: &mut impl Write, cid: &str, lang_id: &str, lang: &Language, parser: &mut Parser, text: &[u8], q0t: &str, qt: &str, caseseed: u64, st: &mut Stats) -> bool {
     let tree = match parser.parse(text, None) {
         Some(t) => t,
@@ -715,8 +865,11 @@ fn emit_case(out: &mut impl Write, cid: &str, lang_id: &str, lang: &Language, pa
     writeln!(out, "case {cid}").unwrap();
     writeln!(out, "text {}", hex(text)).unwrap();
     writeln!(out, "query {}", hex(q0t.as_bytes())).unwrap();
+    let expected = expected_rooted(q0t);
     for p in 0..q0.pattern_count() {
-        writeln!(out, "pat {p} {}", if q0.is_pattern_rooted(p) { 1 } else { 0 }).unwrap();
+        // `pat <i> <is_pattern_rooted says> <the pattern text says: exactly one top-level node>`
+        let exp = expected.get(p).copied().unwrap_or(true);
+        writeln!(out, "pat {p} {} {}", if q0.is_pattern_rooted(p) { 1 } else { 0 }, if exp { 1 } else { 0 }).unwrap();
     }
     let none = Cfg::default();
     let mut cur = QueryCursor::new();
